@@ -8,7 +8,7 @@ TECH = "SMT-based bounded symbolic execution of go/ssa (z3 decides PC ∧ ¬asse
 # id -> (level text, level note, design ref)
 CLAIMED = {
     "C01": ("bounded symbolic model checking of the real OutputFromMarkdown code (both simple routes): for every forest shape up to the row bound, with names and the four branch strings as unconstrained solver strings, z3 shows output != reference rendering unsatisfiable on every path",
-            "trusted: bufio.Scanner line contract, fmt.Fprint as concatenation + one Write, Parser.Parse contract at tree level (itself discharged at byte level by the L-parse jobs of C15); bound = number of rows",
+            "trusted: bufio.Scanner line contract, fmt.Fprint as concatenation + one Write, Parser.Parse contract at tree level (itself discharged at byte level by the L-parse jobs of C15); bound = number of rows; additionally one node of 15..18 children with a repeated name (sizes around which an index or a fixed array could sit), real parser",
             "DESIGN.md 5 C01"),
     "C02": ("bounded symbolic model checking of accept/reject: documents with unconstrained depths (level jumps, indented first row) and one malformed row of each class at every position; z3 decides err != nil <=> some row offends, that a format error names the first offending row, and that an accepted document is rendered completely",
             "trusted: as C01; malformation classes at byte level (no bullet, empty text, bad indentation, mixed tabs/spaces) are decided by the L-parse jobs of C15; bound = number of rows, one malformed row per document",
@@ -20,13 +20,13 @@ CLAIMED = {
             "the bytes produced by encoding/json, yaml.v3 and go-toml (quoting of hostile names) cannot be encoded (reflection) and are outside the solver's claim; the native replays decode the real bytes of the solver's models with the real decoders, and on every run a fixed alphabet of 46 hostile names (quotes, YAML indicators, control characters, U+2028, HTML characters, null/true/1e3-like words, outer blanks) goes through JSON/YAML/TOML of both families and massive JSON on the real build and is decoded back (contract validation of the stub: concrete, not a solver verdict)",
             "DESIGN.md 5 C04"),
     "C05": ("bounded symbolic model checking of the walkers: every visit's Name/Branch/Row/Level/Path/HasChild equals the reference facts in text-output order for every forest up to the bound with opaque names and branch strings; the callback fails / the consumer breaks at a symbolic visit index and z3 decides that nothing is visited afterwards and the error is returned unchanged; the iterator forms run the real iter.Pull2 code",
-            "trusted: Parse contract, path.Join contract on single-element names, iter.newcoro/coroswitch as coroutine hand-off; bound = number of nodes",
+            "trusted: Parse contract, path.Join contract on single-element names, iter.newcoro/coroswitch as coroutine hand-off; bound = number of nodes; additionally chains of 32..35 (thorough 30..70) levels with a side child, real parser: the visits are exactly the lines of the text output",
             "DESIGN.md 5 C05"),
     "C13": ("bounded symbolic model checking over call histories: every sequence of Add / second NewRoot / unrelated From-Markdown call / From-Root operation up to the length bound, with the package-level index counter as ordinary global state; z3 decides that each result equals the reference rendering of the tree's current model and that repeating an operation repeats its result; a second family runs two library calls concurrently in interpreted goroutines and decides result equality with the calls run alone plus absence of happens-before races",
-            "sequential histories: bound = history length, two live trees; options handed over as two slices of one backing array. Concurrent use: two simultaneous library calls (8 kinds each) on inputs of their own under write-yield / LIFO / pseudo-random schedules, real bufio.Scanner and a model of sync.Pool: results equal the calls run alone, and a happens-before (vector-clock) detector over the interpreted execution finds no unsynchronised conflicting accesses in library code; more than two concurrent calls and mkdir/verify as concurrent steps are outside",
+            "sequential histories: bound = history length, two live trees; options handed over as two slices of one backing array; a step may be a From-Markdown output into a refusing writer; the history's operation kind is text / walk / iterator / JSON, or (jobs of their own) the dry-run report, the dry run with an encode option, the JSON record through the massive pipeline; one node of 15..18 children with a repeated name. Concurrent use: two simultaneous library calls (8 kinds each) on inputs of their own under write-yield / LIFO / pseudo-random schedules, real bufio.Scanner and a model of sync.Pool: results equal the calls run alone, and a happens-before (vector-clock) detector over the interpreted execution finds no unsynchronised conflicting accesses in library code; more than two concurrent calls and mkdir/verify as concurrent steps are outside",
             "DESIGN.md 5 C13"),
     "C14": ("bounded symbolic model checking with the fault position as a symbolic variable: the reader fails after k rows / the writer refuses write j (k, j solver-chosen) on every forest up to the bound and every sequential output mode of both API families; z3 decides that the reader's error is returned (errors.Is) and that nil is returned only if the writer accepted the complete output",
-            "trusted: bufio.Scanner/bufio.Writer contracts, encoder stubs perform one Write per Encode (the real yaml/toml encoders may split writes; covered only by native replays); short writes with nil error not modelled; massive-mode reader failures (k = 0 included, FIFO/LIFO/random schedules) and writer failures are part of this check; the failure value is solver-chosen among a fresh error, context.Canceled and context.DeadlineExceeded",
+            "trusted: bufio.Scanner/bufio.Writer contracts, encoder stubs perform one Write per Encode (the real yaml/toml encoders may split writes; covered only by native replays); short writes with nil error not modelled; massive-mode reader failures (k = 0 included, FIFO/LIFO/random schedules) and writer failures are part of this check; the failure value is solver-chosen among a fresh error, context.Canceled, context.DeadlineExceeded and an error that wraps io.EOF; reader-failure jobs keep the reader's failure the only failure of the call",
             "DESIGN.md 5 C14"),
     "C12": ("bounded symbolic model checking at byte level: every document of 1-2 rows of a few arbitrary bytes is run through the real parser and every sequential entry point; an interpreted panic or an exceeded step budget on any feasible path is a violation, and z3 decides that blank-only input gives empty output and nil; panic-freedom is also built into every harness of every other property",
             "bound on row count/length with every byte arbitrary is small (byte-level path explosion); additionally long structured rows (prefix + 30/100 units of 1-, 2-, 3-byte characters or invalid bytes + one arbitrary byte) and the scanner's line limit on the real bufio.Scanner (65535 bytes fit, 65536 do not) on simple and massive routes; file system is the harness model, on the mkdir/verify routes also with the target directory being a regular file (every Stat below it fails with an error other than 'does not exist')",
@@ -41,22 +41,22 @@ CLAIMED = {
             "byte-level jobs: lexical confinement, ASCII names of <= 4 bytes, <= 3 nodes, os calls are recorders; confinement against what is on disk is a tree-level job on the file-system model (C07.links: at one root's path a symbolic link to a directory outside the target or to nothing, valid names, all five Mkdir entry points: nothing is made or changed through the link); links deeper in the tree or at the target itself are outside",
             "DESIGN.md 5 C07"),
     "C08": ("bounded symbolic model checking of the verifier against the file-system model: for every forest up to the bound and every directory state of the family (present subsets, files, extras, strict or not) z3 decides verdict, soundness and exactness of both reported lists for the first differing root, the public error text and read-only-ness; and that a tree just made by the real Mkdir code verifies strictly",
-            "file-system model incl. the fs.WalkDir / filepath.WalkDir contracts is trusted (exercised natively); the first root may be a symbolic link to a directory (Stat-following operations see a directory, an Lstat-based walk does not descend); bound N=3 for the state-space job; a present node may be a regular file although the tree gives it children; byte-level jobs (names of 1..2 bytes over a 4-letter alphabet, real filepath code) list every directory in the real lexical order",
+            "file-system model incl. the fs.WalkDir / filepath.WalkDir contracts is trusted (exercised natively); the first root may be a symbolic link to a directory (Stat-following operations see a directory, an Lstat-based walk does not descend); bound N=3 for the state-space job; a present node may be a regular file although the tree gives it children; byte-level jobs (names of 1..2 bytes over a 4-letter alphabet, real filepath code) list every directory in the real lexical order; the target directory as a regular file or absent (every Verify entry point must return non-nil)",
             "DESIGN.md 5 C08"),
     "C09": ("bounded symbolic model checking of the three dry-run routes against the real mkdir code in one harness: no mutation, report text equals tree text plus per-root counts, and the counts equal what the real Mkdir then creates in the same model; names-based rejection equivalence is decided at byte level under C07",
             "file-system model, color/bufio stubs; target directory present or missing, default or four opaque branch strings, every call with its own copy of the extension list (which may hold duplicates); an encode option in front of or behind WithDryRun in the same call; massive mode under C10",
             "DESIGN.md 5 C09"),
     "C10": ("bounded symbolic model checking of the real pipeline code next to the real simple-mode code on the same symbolic documents: goroutines, channels, select, WaitGroup, Mutex, context and errgroup are interpreted under a deterministic cooperative scheduler (several policies), and z3 decides same accept/reject decision and equality of results up to the order of roots (whole per-root blocks) for text, JSON, dry-run, walk, mkdir and verify; a byte-level job decides the unit-learning difference, another the pre-existing-root case",
-            "the input and configuration quantifiers are decided; the schedule quantifier only over the explored policies (each a legal Go schedule) - equality under every schedule is NOT claimed; data races of the pipeline are decided under C11 (happens-before detector on this harness family); two known findings (mixed indentation units per block, partial mkdir when a root exists) are listed in known_findings.txt",
+            "the input and configuration quantifiers are decided; the schedule quantifier only over the explored policies (each a legal Go schedule) - equality under every schedule is NOT claimed; data races of the pipeline are decided under C11 (happens-before detector on this harness family); two known findings (mixed indentation units per block, partial mkdir when a root exists) are listed in known_findings.txt; root blocks larger than a bufio.Writer buffer (5000-byte names) under the write-yield policy, confirmed natively by an amplified scenario",
             "DESIGN.md 5 C10, 3.6"),
     "C11": ("bounded symbolic model checking of termination, error reporting and goroutine leaks of the real pipeline under the engine's scheduler: failing subsets of blocks in every stage, a failing reader, and cancellation of the caller's context at a symbolic synchronisation event; a blocked main goroutine with nothing runnable is reported as deadlock, after the return every runnable goroutine is run to quiescence and survivors are counted, and a vector-clock happens-before detector checks every load/store/map access/append of library code for unsynchronised conflicting accesses",
-            "schedules: FIFO/LIFO x first/last ready select case and 4-8 pseudo-random ones only (each a legal Go schedule; all schedules are NOT claimed); read-yield schedules for cancellation inside one long block (at most one more row read after the return). Data-race clause: every job runs with a happens-before (vector-clock, FastTrack-style) detector over the interpreted execution -- go, channels, select, Mutex, WaitGroup, errgroup, context, sync/atomic, sync.Pool are the synchronisation edges; a pair of unordered conflicting accesses in library code on an explored schedule is reported as race@<op> and confirmed on a -race build of the native harness (model, then the amplified scenario VerifRaceStress); sequential consistency is assumed for the values read (no weak-memory effects), memory touched only inside host-level stubs (encoders, color) is not tracked",
+            "schedules: FIFO/LIFO x first/last ready select case and 4-8 pseudo-random ones only (each a legal Go schedule; all schedules are NOT claimed); read-yield schedules for cancellation inside one long block (at most one more row read after the return); 11..12 failing and 12..14 good blocks (more than a stage has workers and buffers). Data-race clause: every job runs with a happens-before (vector-clock, FastTrack-style) detector over the interpreted execution -- go, channels, select, Mutex, WaitGroup, errgroup, context, sync/atomic, sync.Pool are the synchronisation edges; a pair of unordered conflicting accesses in library code on an explored schedule is reported as race@<op> and confirmed on a -race build of the native harness (model, then the amplified scenario VerifRaceStress); sequential consistency is assumed for the values read (no weak-memory effects), memory touched only inside host-level stubs (encoders, color) is not tracked",
             "DESIGN.md 5 C11, 3.6"),
     "C16": ("bounded symbolic model checking of the CLI's flag-to-option wiring and exit-status logic: the three action functions and main() are executed with every flag value symbolic; the options they pass are applied by the real gtree.newConfig and z3 decides that the resulting configuration, writer and reader are what the flags denote, that every failure surfaces as a non-zero ExitCoder and success as nil, and that main exits non-zero exactly when App.Run failed",
-            "library entry points, urfave/cli's parser, os.Open/Exit and the standard streams are stubs (contracts listed in the evidence); what the library does with the options is C01-C15; models of these jobs (witnesses and counterexamples) are replayed by a concrete CLI-vs-library differential run (engine/clireplay.go + replay/cliref: stdout, exit status, file-system snapshot, also with stdout=/dev/full); the App.Run stub's contract (usage failure => error or non-zero exit) is validated on the real binary for every class of usage failure (stray argument, unknown flag, unknown sub-command, unknown help topic, missing flag value, invalid duration) on every run -- that part is a concrete contract validation, not a solver verdict",
+            "library entry points, urfave/cli's parser, os.Open/Exit and the standard streams are stubs (contracts listed in the evidence); what the library does with the options is C01-C15; models of these jobs (witnesses and counterexamples) are replayed by a concrete CLI-vs-library differential run (engine/clireplay.go + replay/cliref: stdout, exit status, file-system snapshot, also with stdout=/dev/full); the App.Run stub's contract (usage failure => error or non-zero exit) is validated on the real binary (the template action is inside the encoding: fmt.Print/Println with a stdout that accepts or refuses each write) for every class of usage failure (stray argument, unknown flag, unknown sub-command, unknown help topic, missing flag value, invalid duration) on every run -- that part is a concrete contract validation, not a solver verdict",
             "DESIGN.md 5 C16"),
     "C17": ("bounded symbolic model checking of a two-variant relational property: the tinywasm file set is regenerated from /repo as a second package of the same SSA program, both Output implementations run on the same symbolic documents and options, and z3 decides equal accept/reject decisions and equal output (text with opaque branch strings, JSON record, dry-run report)",
-            "the tinywasm constraint is emulated by file selection (same files the Go tool would select); Parse contract; encoder stubs incl. the documented effect of encoder settings; byte-level names through the real path code; rows at the scanner's line limit and LF/CRLF spellings of small forests through the real line splitting of both variants; a writer that refuses its first write in every comparison; bound = rows",
+            "the tinywasm constraint is emulated by file selection (same files the Go tool would select); Parse contract; encoder stubs incl. the documented effect of encoder settings; byte-level names through the real path code; rows at the scanner's line limit and LF/CRLF spellings of small forests through the real line splitting of both variants; a writer that refuses its first write in every comparison and a healthy call after the refused one; the dry run combined with an encode option; a 1.2 MB document; bound = rows",
             "DESIGN.md 5 C17"),
 }
 
